@@ -494,14 +494,18 @@ pub fn digest(o: &Out) -> u64 {
     fnv(&acc)
 }
 
-/// top-level blocks (module / package / interface ... end*) of an emitted file, sorted
+/// top-level blocks (module / package / interface ... end*) of an emitted file, sorted; comment and
+/// blank lines are dropped (a doc comment between two copies keeps its place while the copies move)
 fn blocks(s: &str) -> Vec<String> {
     let mut out = vec![];
     let mut cur = String::new();
     for line in s.lines() {
+        let t = line.trim_start();
+        if t.is_empty() || t.starts_with("//") {
+            continue;
+        }
         cur.push_str(line);
         cur.push('\n');
-        let t = line.trim_start();
         if t.starts_with("endmodule") || t.starts_with("endpackage") || t.starts_with("endinterface") {
             out.push(std::mem::take(&mut cur));
         }
